@@ -31,6 +31,7 @@ LEVEL_TEXT = (
     "unpacking, nested def, augmented), comparison chains with mixed operators, roots / fractional powers of "
     "squares, a helper re-bound between two translations, and every function of the shipped library mxlpy.fns "
     "under every rotation of its own parameter names. "
+    ' Also: signature variants of the same function (positional-only, keyword-only, defaults), helper calls with keyword arguments, tuple displays with an element that cannot be translated.'
 )
 LEVEL_NOTE = "trusted: CPython as the semantics of the function, sympy's evaluation of the returned expression (subs/evalf or lambdify cross-checked), the finite grid"
 RULE = (
